@@ -32,7 +32,7 @@ EventSelection = DashOption(
     title='DASH events',
     description='A comma separated list of event formats',
     from_string=DashOption.list_without_none_from_string,
-    to_string=lambda evs: ','.join(evs),
+    to_string=DashOption.url_text,
     html=EV_HTML,
     cgi_name='events',
     cgi_type='<format>,..',
